@@ -108,6 +108,8 @@ TypeOf(key) ==
     [] key = "HdrSlots" -> Struct("HdrSlots", "named", <<F("h1", "h1", "header", I32), F("h2", "h2", "header", Opt(STR)),
                                                         F("first", "first", "slot", I32)>>)
     [] key = "HdrOpt"   -> Struct("HdrOpt", "named", <<F("h", "h", "header", Opt(I32)), F("x", "x", "slot", I32)>>)
+    [] key = "AttrVec"  -> Struct("AttrVec", "named", <<F("v", "v", "attr", Vec(I32)), F("x", "x", "slot", I32)>>)
+    [] key = "AttrMap"  -> Struct("AttrMap", "named", <<F("m", "m", "attr", Map(STR, I32)), F("x", "x", "slot", I32)>>)
     [] key = "HdrBoth"  -> Struct("HdrBoth", "named", <<F("hb", "hb", "hbody", BOOL), F("h1", "h1", "header", I32),
                                                        F("first", "first", "slot", STR)>>)
     [] key = "HdrVec"   -> Struct("HdrVec", "named", <<F("hb", "hb", "hbody", Vec(BOOL)), F("first", "first", "slot", I32)>>)
@@ -162,7 +164,7 @@ TypeOf(key) ==
     [] key = "VecOptI"  -> Plain(Vec(Opt(I32)))
 
 AllKeys == {"Unit", "Simple", "Two", "Tup", "Renamed", "TupRen", "WithAttr", "TwoAttrs", "HdrBody", "HdrSlots", "HdrOpt",
-            "HdrBoth", "HdrVec", "HdrNest", "BodyVec", "BodyStr", "BodyNest", "Skippy", "SkipTup", "Opt", "Coll",
+            "AttrVec", "AttrMap", "HdrBoth", "HdrVec", "HdrNest", "BodyVec", "BodyStr", "BodyNest", "Skippy", "SkipTup", "Opt", "Coll",
             "GenI", "GenS", "GenTwo", "GenOptTwo", "Nested", "VecNest", "NewT", "NewS", "TagField", "Shape",
             "OpSI", "OpITwo", "ConvStruct", "ConvEnum", "Nums", "ModelVal", "WithValue", "BodyValue", "HdrValue",
             "i32", "u64", "f64", "bool", "String", "VecI", "OptI", "MapSI", "PairIS", "OptTwo", "VecTwo", "VecOptI"}
@@ -253,10 +255,13 @@ RenderStruct(tag, fields, xs) ==
         hb      == idx("hbody")
         hdrItems == [j \in 1..Len(hb) |-> Item(val(hb[j]))]
                     \o [j \in 1..Len(hsKept) |-> Slot(Txt(live[hsKept[j]].name), val(hsKept[j]))]
+        \* header_body alone is the body of the tag attribute; header slots make it a record (even an
+        \* empty one when every slot is omitted); without header fields the tag has no body
         tagBody == IF hs = <<>> /\ hb # <<>> THEN val(hb[1])
-                   ELSE IF hdrItems = <<>> THEN Extant
+                   ELSE IF hs = <<>> THEN Extant
                    ELSE Rec(<<>>, hdrItems)
-        as      == SelectSeq(idx("attr"), LAMBDA i : ~IsNone(live[i].ty, xs[i]))
+        \* (an absent optional attribute field is written, with an empty body)
+        as      == idx("attr")
         attrs   == <<Attr(tagName, tagBody)>> \o [j \in 1..Len(as) |-> Attr(live[as[j]].name, val(as[j]))]
         ss      == SelectSeq(idx("slot"), LAMBDA i : ~IsNone(live[i].ty, xs[i]))
         items   == [j \in 1..Len(ss) |-> IF live[ss[j]].name = "" THEN Item(val(ss[j]))
@@ -358,6 +363,19 @@ ReadAll(t, vs) == [i \in 1..Len(vs) |-> Read(t, vs[i])]
 AllOk(rs) == \A i \in 1..Len(rs) : rs[i].ok
 Xs(rs) == [i \in 1..Len(rs) |-> rs[i].x]
 
+\* a value in the body of an attribute: RecognizerReadable::make_attr_recognizer.  From a model value the
+\* bridge feeds the events of the value followed by EndAttribute.
+ReadAttrBody(t, hv) ==
+    CASE t.c = "opt" -> IF hv = Extant /\ ~(t.e.c = "prim" /\ t.e.p = "value") THEN Ok(NoneI)
+                        ELSE LET r == (IF t.e.c = "vec" \/ t.e.c = "map" THEN Fail ELSE Read(t.e, hv)) IN
+                             IF r.ok THEN Ok(SomeI(r.x)) ELSE Fail
+      \* CollaspsibleRec: the items directly in the attribute (a single value, from a model value) or one record
+      [] t.c = "vec" -> IF IsRec(hv) /\ hv.attrs = <<>> THEN Read(t, hv)
+                        ELSE LET r == Read(t.e, hv) IN IF r.ok THEN Ok(VecI(<<r.x>>)) ELSE Fail
+      \* HashMapRecognizer::new_attr expects the entries directly in the attribute: never what the bridge feeds
+      [] t.c = "map" -> Fail
+      [] OTHER -> Read(t, hv)
+
 \* the value of the field f if it is absent from the document
 Absent(f) == IF f.ty.c = "opt" THEN Ok(NoneI) ELSE Fail
 
@@ -383,13 +401,13 @@ ReadHeader(hbF, hsF, hv) ==
                                ELSE Read(hsF[i].ty, rest[CHOOSE j \in occ(hsF[i].name) : TRUE].v)]
                IN IF known /\ AllOk(hbr) /\ AllOk(slotr) THEN [ok |-> TRUE, hb |-> Xs(hbr), hs |-> Xs(slotr)] ELSE Fail
             ELSE Fail
-        \* B: the tag body is the header body itself (no slots present)
-        flat == IF hbF # <<>> /\ AllOk(absentAll) /\ hv # Extant THEN
-                   LET r == Read(hbF[1].ty, hv) IN
+        \* B: only a header body: the tag body is read as the body of an attribute
+        flat == IF hbF # <<>> /\ hsF = <<>> THEN
+                   LET r == ReadAttrBody(hbF[1].ty, hv) IN
                    IF r.ok THEN [ok |-> TRUE, hb |-> <<r.x>>, hs |-> Xs(absentAll)] ELSE Fail
                 ELSE Fail
     IN  IF noHdr THEN (IF hv = Extant THEN [ok |-> TRUE, hb |-> <<>>, hs |-> <<>>] ELSE Fail)
-        ELSE IF flat.ok THEN flat ELSE recForm
+        ELSE IF hbF # <<>> /\ hsF = <<>> THEN flat ELSE recForm
 
 \* the body of a record delegated to a field of type t (DelegateStructRecognizer -> make_body_recognizer)
 ReadBody(t, attrs, items) ==
@@ -424,7 +442,7 @@ ReadStruct(tag, fields, v) ==
         occA(nm) == {i \in 1..Len(own) : own[i].n = nm}
         atr(i)  == IF Cardinality(occA(live[i].name)) = 0 THEN Absent(live[i])
                    ELSE IF Cardinality(occA(live[i].name)) > 1 THEN Fail
-                   ELSE Read(live[i].ty, own[CHOOSE j \in occA(live[i].name) : TRUE].v)
+                   ELSE ReadAttrBody(live[i].ty, own[CHOOSE j \in occA(live[i].name) : TRUE].v)
         slI     == SelectIdx(live, LAMBDA f : f.role = "slot" /\ ~hasBody, 1)
         labelled == \A j \in 1..Len(slI) : live[slI[j]].name # ""
         slNames == {live[slI[j]].name : j \in 1..Len(slI)}
